@@ -248,12 +248,12 @@ func (im *Impl) Do(c Cmd) Res {
 		return Res{OK: true, S: c.S}
 	case "put":
 		cellMu.Lock()
-		cell["k"] = c.S
+		cell[im.Tag] = c.S
 		cellMu.Unlock()
 		return Res{OK: true}
 	case "get":
 		cellMu.Lock()
-		v := cell["k"]
+		v := cell[im.Tag]
 		cellMu.Unlock()
 		return Res{OK: true, S: v}
 	case "sleep":
